@@ -23,7 +23,7 @@ pub struct FsCase {
 }
 
 pub const PLAIN_SEGS: &[&str] = &["note", "a", "b2", "index", "todo", "x_y", "n-1"];
-pub const ODD_SEGS: &[&str] = &["my note", "\u{fc}ber", "\u{4e2d}\u{6587}", "v1.2", "50%", "a+b", "c#", "what?", "x.md", "tab\u{a0}le", "(p)", "it's", "a&b", "e=mc2", "caf\u{e9} au lait"];
+pub const ODD_SEGS: &[&str] = &["my note", "\u{fc}ber", "\u{4e2d}\u{6587}", "v1.2", "50%", "a+b", "c#", "what?", "x.md", "tab\u{a0}le", "(p)", "it's", "a&b", "e=mc2", "caf\u{e9} au lait", "q%41", "50%25off", "%2e%2e"];
 
 static COUNTER: std::sync::atomic::AtomicU64 = std::sync::atomic::AtomicU64::new(0);
 
